@@ -158,9 +158,11 @@ CLAIMED = {
              note="Not proved: the quadrature error of the 16-point contour mean (incl. z=0) and the O(dt^p) convergence theorem; both are measured (phi-tableau oracle over a z cover to -1e9, dt-halving rates). jnp.exp trusted.",
              technique="Rocq proof (field identities, stage-program equivalence) on an AST-translated model + exact correspondence", design="§4 C02"),
  "C14": dict(text="Theorems (unbounded in n, state type, stepper function, window length) about a hand-written Gallina model of rollout/repeat/stack_sub_trajectories/"
-                  "RepeatedStepper; the model is tied to the code by exact correspondence (extracted model vs JAX on integer bookkeeping steppers) on every run, plus a naive-loop oracle on the real code.",
+                  "RepeatedStepper; the model is tied to the code by exact correspondence (extracted model vs JAX on integer bookkeeping steppers) on every run, plus a naive-loop oracle on the real code; "
+                  "rollout, repeat (with / without aux, all flags) and RepeatedStepper / ForcedStepper are additionally re-translated from the source on every run (harness/translate/utilsfn.py, "
+                  "fail-closed) and proved equal to the model for every state type, step function, n, flag and auxiliary argument.",
              note="Model of lax.scan/tree_map/dynamic_slice is a contract (fold/list cons/clamped slice); RepeatedStepper theorem assumes the rfftn.irfftn round trip on the reachable spectra (Nyquist-compatible states).",
-             technique="Rocq proof (induction over n / lists) + exact model-vs-code correspondence", design="§4 C14"),
+             technique="Rocq proof (induction over n / lists; utilities regenerated from the source by an AST translator and proved equal to the model) + exact model-vs-code correspondence", design="§4 C14"),
 }
 checks, na = [], []
 for p in props:
